@@ -240,7 +240,8 @@ where
         self.units.len()
     }
     pub fn index_of(&self, u: Q::UnitType) -> Option<usize> {
-        self.units.iter().position(|x| *x == u)
+        // identity by enum discriminant, not by the unit type's own `==` (part of the code under test, seed r7-C14)
+        self.units.iter().position(|x| core::mem::discriminant(x) == core::mem::discriminant(&u))
     }
     pub fn vname(&self, i: usize) -> &'static str {
         &self.tm.units[i].variant
